@@ -455,6 +455,7 @@ def getitem(interp: Any, t: TensorV, iv: V, st: State, node: ast.AST | None) -> 
 
 
 RAMP = "ramp@"
+ZEROS = (("zeros@", Dim.const(0)),)  # value marker: the tensor is the constant 0 (zeros / zeros_like / new_zeros)
 
 
 def ramp_offset(t: TensorV, st: State) -> Dim | None:
@@ -867,6 +868,11 @@ def tensor_op(interp: Any, op: str, args: list[V], kwargs: dict[str, V], st: Sta
             if "fill_value" not in kwargs and len(a) >= 2:
                 a = a[:-1] if seq_items(a[0]) is None else a[:1]
         shp = size_arg(a, kwargs, st)
+        if shp is not None and op in ("rand", "randn") and hasattr(interp, "random_sources"):
+            interp.random_sources.append((op, st.norm_shape(shp), node))
+        if shp is not None and op == "zeros":
+            r0 = mkfresh(st.norm_shape(shp))
+            return TensorV(r0.shape, r0.dtype, r0.lay, ZEROS)
         return mkfresh(st.norm_shape(shp)) if shp is not None else unk(f"torch.{op} size")
     if op == "arange":
         ds = [getd(a, st) for a in args[:2]]
@@ -1238,9 +1244,12 @@ def tensor_op(interp: Any, op: str, args: list[V], kwargs: dict[str, V], st: Sta
         if op == "new_full" and len(a) >= 2:
             a = a[:1]
         shp = size_arg(a, kwargs, st)
-        return mkfresh(st.norm_shape(shp), "any" if op == "new_empty" else t.dtype) if shp is not None else unk(op)
+        if shp is None:
+            return unk(op)
+        r0 = mkfresh(st.norm_shape(shp), "any" if op == "new_empty" else t.dtype)
+        return TensorV(r0.shape, r0.dtype, r0.lay, ZEROS) if op == "new_zeros" else r0
     if op in LIKE:
-        return TensorV(t.shape, "float", t.lay)
+        return TensorV(t.shape, "float", t.lay, ZEROS if op == "zeros_like" else None)
     if op == "diag":
         if rank == 1:
             return mk((t.shape[0], t.shape[0]), t.dtype, [lays(t)[0], lays(t)[0]])
@@ -1301,7 +1310,11 @@ def tensor_op(interp: Any, op: str, args: list[V], kwargs: dict[str, V], st: Sta
         return unk("topk")
     if op == "multinomial":
         n = getd(kw("num_samples", 0), st)
+        if n is not None and hasattr(interp, "random_sources"):
+            interp.random_sources.append((op, st.norm_shape(t.shape[:-1] + (n,)), node))
         return TensorV(t.shape[:-1] + (n,), "int") if n is not None else unk("multinomial")
+    if op in ("rand_like", "randn_like", "bernoulli", "normal_", "uniform_", "random_", "exponential_") and hasattr(interp, "random_sources"):
+        interp.random_sources.append((op, st.norm_shape(t.shape), node))
     if op == "one_hot":
         n = getd(kw("num_classes", 0), st)
         return TensorV(t.shape + (n,), "int") if n is not None else unk("one_hot")
@@ -1513,6 +1526,8 @@ def dist_op(interp: Any, d: DistV, op: str, args: list[V], kwargs: dict[str, V],
             return interp.unk("sample_shape symbolic")
         ev: tuple[Dim, ...] = EVENT_SHAPE.get(d.kind, ())
         shape_ = tuple(ds) + d.batch + ev  # type: ignore[operator]
+        if hasattr(interp, "random_sources"):
+            interp.random_sources.append(("dist." + op, st.norm_shape(tuple(ds) + d.batch), node))
         if ev:
             lay_ = L.fresh(st.norm_shape(tuple(ds) + d.batch)) + ((("simplex", ev[0]),),)  # type: ignore[arg-type]
             return TensorV(shape_, "float", lay_)
